@@ -1,6 +1,6 @@
 (* Theorems about the signal model (C10, C11). *)
 From Coq Require Import List Bool Arith Lia.
-From Asphalt Require Import Ev.SigModel.
+From Asphalt Require Import Ev.SigModel Gen.Gen_signal.
 Import ListNotations.
 
 (* ================= the table of bound signals (C11) ================= *)
@@ -470,3 +470,15 @@ Proof. intros s c id cl i a O E. simpl. now rewrite O, E. Qed.
 Theorem not_subscribed_untouched : forall c e l i st,
   nth_error l i = Some st -> subscribed c st = false -> nth_error (fst (deliver_all c e l)) i = Some st.
 Proof. intros c e l i st H S. rewrite deliver_all_pointwise, H, S. reflexivity. Qed.
+
+(* ---------- the shape of the source the model's table key and class check were read from ---------- *)
+Theorem signal_table_source_shape :
+  sig_key_by_identity = true /\ sig_key_includes_topic = true /\
+  sig_owner_weakly_referenced = true /\ sig_entry_dropped_with_owner = true.
+Proof. repeat split. Qed.
+Theorem signal_dispatch_source_shape :
+  sig_subscription_appended = true /\ sig_unsubscribed_in_finally = true /\
+  sig_class_check_by_isinstance = true /\ sig_check_before_stamping = true /\
+  sig_stamps_source_topic_time = true /\ sig_iterates_over_copy = true /\
+  sig_closed_receiver_skipped = true /\ sig_full_queue_warns_and_drops = true.
+Proof. repeat split. Qed.
